@@ -293,7 +293,25 @@ class W:
             elif c == 25:
                 d.clear()
             elif c == 26:
-                bi.symbolic_expressions = {k: self.expr(e) for k, e in it[2]}
+                want = {k: self.expr(e) for k, e in it[2]}
+                # the value is exactly what an interval's mapping holds now (this interval's own, or another one's): hand over
+                # that live mapping itself (`bi.symbolic_expressions = other.symbolic_expressions`, `x = x`)
+                live = None
+                if want:
+                    for n2, o2 in self.obj.items():
+                        if self.kind[n2] == "ByteInterval":
+                            cur = o2.symbolic_expressions
+                            if len(cur) == len(want) and all(k in want and want[k] is v for k, v in cur.items()):
+                                live = cur
+                                if o2 is bi:
+                                    break
+                self.forms = getattr(self, "forms", {})
+                if live is not None:
+                    nm = "live-mapping:" + ("own" if live is bi.symbolic_expressions else "another interval's")
+                    self.forms[nm] = self.forms.get(nm, 0) + 1
+                    bi.symbolic_expressions = live
+                else:
+                    bi.symbolic_expressions = want
             return [0]
         if c == 28:
             O[it[1]].modules.reverse()
@@ -415,6 +433,83 @@ def reach(g, ir):
                 for b in bi.blocks:
                     out.append(b)
     return out
+
+
+def twin_swaps(g, ir, cp, rng, report, cache=True):
+    """`ir` and `cp` hold nodes with equal UUIDs (two loads of one file, an IR and its deep copy).  In each of the five owning sets of
+    `ir`, a member is exchanged for its equal-UUID twin of `cp` by ONE in-place operator, `coll ^= {member, twin}` -- before and after
+    the call the nodes attached to `ir` have pairwise distinct UUIDs -- with the two possible iteration orders of the argument (a dict
+    keys view keeps its order, a set hashes), then the twin is detached through its parent attribute and the member put back.  After
+    every step both IRs must answer get_by_uuid exactly for what they contain and the containment links must agree from both ends.
+    report(problem) is called with a description of the first disagreement; returns the number of swaps made."""
+    def exact(x, stage):
+        if not cache:           # (C04 judges the containment links and the operations' outcomes only)
+            return None
+        r = reach(g, x)
+        mine = {id(y) for y in r}
+        for y in r:
+            got = x.get_by_uuid(y.uuid)
+            if got is not y:
+                return "%s: get_by_uuid(uuid of an attached %s) gives %s" % (stage, type(y).__name__, "None" if got is None else
+                                                                              ("a node outside this IR" if id(got) not in mine else "another node"))
+        return None
+
+    def sites(x):
+        for m in x.modules:
+            yield "module.sections", m.sections, "module"
+            yield "module.proxies", m.proxies, "module"
+            yield "module.symbols", m.symbols, "module"
+            for sec in m.sections:
+                yield "section.byte_intervals", sec.byte_intervals, "section"
+                for bi in sec.byte_intervals:
+                    yield "byte_interval.blocks", bi.blocks, "byte_interval"
+    twins = {}
+    for nm, coll, _ in sites(cp):
+        for y in coll:
+            twins[y.uuid] = y
+    n = 0
+    for nm, coll, back in list(sites(ir)):
+        members = [y for y in coll if y.uuid in twins]
+        if not members:
+            continue
+        own = rng.choice(members)
+        twin = twins[own.uuid]
+        if getattr(twin, back) is None:
+            continue            # (already moved by an earlier swap of an enclosing node)
+        owner = getattr(own, back)
+        twin_home = getattr(twin, back)
+        for order in ("twin-first", "member-first", "plain-set"):
+            pair = [twin, own] if order == "twin-first" else [own, twin]
+            arg = set(pair) if order == "plain-set" else dict.fromkeys(pair).keys()
+            what = "%s ^= {member, its equal-UUID twin of the other IR} (%s)" % (nm, order)
+            try:
+                coll ^= arg
+            except Exception as e:  # noqa: BLE001
+                report("%s raised %s" % (what, type(e).__name__))
+                return n
+            n += 1
+            bad = None
+            if (twin not in coll) or (own in coll) or getattr(twin, back) is not owner or getattr(own, back) is not None:
+                bad = "after %s: the set holds %s, twin.%s is the owner: %s, member.%s is None: %s" % (
+                    what, "the twin" if twin in coll else ("the member" if own in coll else "neither"), back, getattr(twin, back) is owner, back, getattr(own, back) is None)
+            bad = bad or exact(ir, "after " + what) or exact(cp, "after " + what + ", the other IR")
+            if bad:
+                report(bad)
+                return n
+            # and back: detach the twin through its parent attribute, put the member back through its own
+            try:
+                setattr(twin, back, None)
+                setattr(own, back, owner)
+            except Exception as e:  # noqa: BLE001
+                report("after %s, detaching the twin / re-attaching the member through .%s raised %s" % (what, back, type(e).__name__))
+                return n
+            bad = exact(ir, "after %s and the move back" % what)
+            if bad or (own not in coll) or (twin in coll):
+                report(bad or "after %s and the move back the set does not hold the member again" % what)
+                return n
+            # (the twin goes home, so that the next site finds the copy complete)
+            setattr(twin, back, twin_home)
+    return n
 
 
 def oracle_cache(w, uuid_pool):
